@@ -535,6 +535,10 @@ def main(chk):
     content_cols = ["line_count", "sha1", "sha256", "is_shebang", "contains('a')", "has_xattrs", "caps", "has_xattr(user.a)", "xattr(user.a)", "has_caps()"]
     for i in range(0, len(content_cols), 2):
         jobs.append({"id": "fifo%d" % i, "kind": "fifo", "seed": 0, "cols": content_cols[i:i + 2]})
+    if not quick:
+        special = [j for j in jobs if j["kind"] in ("xattr", "caps", "fifo", "zipmodes")]
+        jobs += chk.shard(special + [j for j in jobs if j["kind"] == "tree"][:60], "asan", 200)
+        jobs += chk.shard([j for j in jobs if j["kind"] in ("xattr", "caps") and not j.get("flavour")][:6], "valgrind", 6)
     chk.run_jobs(jobs, budget_s=420 if quick else 3000)
     return chk.finish(
         rule="(a) one directory holding ALL 4096 permission values as regular files and a 512-value sample as directories: mode string and the "
